@@ -554,23 +554,30 @@ pub fn fast_f32_n2_p8() {
     cover!(p[0] > 0.0 && p[1] > 0.0, "all positive");
 }
 
-/// C19/C20/C10: the non-contiguous LOOKUP decoder's float constructor refuses a symbol count that
-/// differs from the number of probabilities; an accepted model answers every quantile in bounds.
-#[cfg_attr(kani, kani::proof)]
-#[cfg_attr(kani, kani::unwind(20))]
-pub fn lookup_noncontiguous_fast_counts() {
-    const P: usize = 4;
-    let probs: [f32; 3] = [1.0, 1.0, 2.0];
-    let syms: [u16; 4] = [10, 20, 30, 40];
-    let nsym: usize = any(); assume(nsym >= 1 && nsym <= 4);
-    let d = NonContiguousLookupDecoderModel::<u16, u8, Vec<(u8, u16)>, Box<[u8]>, P>::from_symbols_and_floating_point_probabilities_fast(syms[..nsym].iter().copied(), &probs, None);
-    assert!(d.is_ok() == (nsym == 3), "C19: non-contiguous lookup model accepted a symbol count that differs from the number of probabilities");
-    if let Ok(d) = d {
-        let q: u8 = any(); assume(q < 16);
-        let (_s, c, p) = d.quantile_function(q);
-        assert!(c <= q && (q as u32) < c as u32 + p.get() as u32, "C03/C10: lookup model returned an interval that does not hold the quantile");
-    }
+macro_rules! lookup_noncontiguous_counts {
+    ($name:ident, $NSYM:expr) => {
+        /// C19/C20/C10: the non-contiguous LOOKUP decoder's float constructor refuses a symbol count
+        /// ($NSYM here) that differs from the number of probabilities (3); an accepted model answers
+        /// every quantile in bounds.
+        #[cfg_attr(kani, kani::proof)]
+        #[cfg_attr(kani, kani::unwind(20))]
+        pub fn $name() {
+            const P: usize = 4;
+            let probs: [f32; 3] = [1.0, 1.0, 2.0];
+            let syms: [u16; 4] = [10, 20, 30, 40];
+            let d = NonContiguousLookupDecoderModel::<u16, u8, Vec<(u8, u16)>, Box<[u8]>, P>::from_symbols_and_floating_point_probabilities_fast(syms[..$NSYM].iter().copied(), &probs, None);
+            assert!(d.is_ok() == ($NSYM == 3), "C19: non-contiguous lookup model accepted a symbol count that differs from the number of probabilities");
+            if let Ok(d) = d {
+                let q: u8 = any(); assume(q < 16);
+                let (_s, c, p) = d.quantile_function(q);
+                assert!(c <= q && (q as u32) < c as u32 + p.get() as u32, "C03/C10: lookup model returned an interval that does not hold the quantile");
+            }
+        }
+    };
 }
+lookup_noncontiguous_counts!(lookup_noncontiguous_fast_counts_2, 2);
+lookup_noncontiguous_counts!(lookup_noncontiguous_fast_counts_3, 3);
+lookup_noncontiguous_counts!(lookup_noncontiguous_fast_counts_4, 4);
 
 /// C19/C03/C20 (bounded): the default preset's shape (u32 probabilities, 24 bits) with f32 weights,
 /// where the free weight is as wide as the float mantissa: 2 entries, all f32 bit patterns.
